@@ -4,13 +4,13 @@ import json, subprocess
 
 DONE = {
  # id: (engine, category, technique, text, note)
- "C02": ("psim", "model_checking", "stateless exhaustive schedule enumeration (deviation-bounded DFS) of the real multiplexor under a controlled single-thread scheduler",
+ "C02": ("psim", "model_checking", "stateless exhaustive schedule enumeration (deviation-bounded DFS; smallest cases to exhaustion with sleep sets, cross-checked against the unreduced tree) of the real multiplexor under a controlled single-thread scheduler",
          "every schedule of task polls and message deliveries within the completed deviation bound, per (rwnd,threshold) pair, link capacity and write/read script, is executed on the real code; byte ledger checked for the prefix relation after every step and for equality at clean EOF",
          "one poll = one atomic step; payloads are tags; tokio channels and parking_lot trusted; bounds reported in evidence (never called exhaustive when capped)"),
- "C03": ("psim", "model_checking", "same explorer; black-box wire accounting with a reference decoder plus white-box credit equation through a cfg-guarded hook, evaluated after every step",
+ "C03": ("psim", "model_checking", "stateless exhaustive schedule enumeration under a controlled single-thread scheduler (deviation-bounded DFS); black-box wire accounting with a reference decoder plus white-box credit equation through a cfg-guarded hook, evaluated after every step",
          "all schedules within the bound for every (rwnd,threshold) pair in the grid; credit, acknowledge and handshake rules checked on every wire event and every step",
          "poll-granularity; sub-poll atomics are C12's subject; grid bounds in evidence"),
- "C04": ("psim", "model_checking", "same explorer over the option grid; liveness decided by quiescence (no runnable task, nothing in flight) with unfinished futures = stall, step horizon = livelock",
+ "C04": ("psim", "model_checking", "stateless exhaustive schedule enumeration under a controlled single-thread scheduler (deviation-bounded DFS; smallest cases to exhaustion with sleep sets) over the option grid; liveness decided by quiescence (no runnable task, nothing in flight) with unfinished futures = stall, step horizon = livelock",
          "every fair schedule within the bound for every pair of option sets in the grid runs to quiescence; unfinished writers/readers of a stream whose reader keeps reading, pending opens or datagram exchanges are stalls",
          "fairness is structural (run to quiescence); grid and bound reported in evidence"),
  "C05": ("psim", "model_checking", "exhaustive enumeration of operation histories (both ends) x schedules against a per-direction reference model (byte queue + open/finished/aborted)",
@@ -25,7 +25,7 @@ DONE = {
 }
 
 DONE.update({
- "C06": ("psim", "model_checking", "same explorer; close histories x schedules with bystander streams; open/close cycles against a scripted raw peer re-using one flow id; flow-table hook for the leak clause",
+ "C06": ("psim", "model_checking", "stateless exhaustive schedule enumeration under a controlled single-thread scheduler (deviation-bounded DFS); close histories x schedules with bystander streams; open/close cycles against a scripted raw peer re-using one flow id; flow-table hook for the leak clause",
          "every pair of close histories of a victim stream next to a bystander and a follow-up stream under every schedule within the bound; every sequence of up to L open/close cycles over 8 variants with forced re-use of the same id",
          "re-use probed at link quiescence (old-incarnation frames still in flight are outside the statement); poll granularity"),
  "C10": ("psim", "fault_enumeration", "bounded-exhaustive enumeration of peer frame sequences from every slot state against a real endpoint and a scripted raw peer, reference-decoded replies",
@@ -41,7 +41,7 @@ DONE.update({
 
 
 DONE.update({
- "C07": ("psim", "model_checking", "same explorer with scripted flow-id generators forcing collisions; plus the loom model of concurrent allocation (m7) for sub-poll races",
+ "C07": ("psim", "model_checking", "stateless exhaustive schedule enumeration under a controlled single-thread scheduler (deviation-bounded DFS) with scripted flow-id generators forcing collisions; plus the loom model of concurrent allocation (m7) for sub-poll races",
          "concurrent opens from both sides under every schedule within the bound for id scripts that force a zero draw, a draw of a live id, identical draws on both sides and repeated collisions; a raw peer rejecting 0..3 proposals for every max_flow_id_retries 1..3; loom explores two threads inside insert_new_flow exhaustively",
          "poll granularity for psim; loom substitutes its lock models"),
  "C08": ("psim", "fault_enumeration", "every fault kind injected at every scheduling point of every schedule within the deviation bound of a busy two-endpoint scenario, run to quiescence",
@@ -51,13 +51,13 @@ DONE.update({
 
 
 DONE.update({
- "C11": ("psim", "model_checking", "same explorer; field-boundary sweep plus bursts against a reference model of the bounded receive queue, all schedules within the bound",
+ "C11": ("psim", "model_checking", "stateless exhaustive schedule enumeration under a controlled single-thread scheduler (deviation-bounded DFS); field-boundary sweep plus bursts against a reference model of the bounded receive queue, all schedules within the bound",
          "every (host length, payload length, flow id, port) boundary combination; bursts of size+2 into datagram_buffer_size 1..3 with concurrent or late reader, with and without a stream on the same connection, under every schedule within the bound; received datagrams must be exactly the ones the reference queue admitted, in order, unmodified",
          "payload/host bytes are patterns; poll granularity"),
  "C13": ("psim", "model_checking", "explorer-owned environment: every answer of the scripted local AsyncBufRead/AsyncWrite (data size, Pending, EOF, Err) and every raw-peer event is a choice point; bounded by environment deviations and scheduling deviations",
          "all runs with <= e non-default local answers and <= k scheduling deviations over 5-7 peer scenarios (one-way, both ways, credit starvation, peer Finish first, peer Reset); relay prefix relations at every step, half-close propagation, exact completion result, promptness after an injected error, credit equation",
          "local write returning Ok(0) is outside the alphabet; Pending operations eventually become ready"),
- "C15": ("psim", "model_checking", "same explorer; every answer vector x answer order x bind buffer size, connection-end faults at every point",
+ "C15": ("psim", "model_checking", "stateless exhaustive schedule enumeration under a controlled single-thread scheduler (deviation-bounded DFS); every answer vector x answer order x bind buffer size, connection-end faults at every point",
          "1..3 concurrent requests, every vector over {accept, reject, drop, never} in every (quick: selected) permutation order, bind_buffer_size 1/4/disabled, optional traffic alongside, optional opposite-direction request, optional connection end at every point; every schedule within the bound",
          "flow ids paired through reference-decoded Bind frames"),
  "C16": ("psim", "model_checking", "real task future on tokio's paused clock under the hand-rolled executor; exhaustive pong-delay histories per (interval, timeout) pair; equal-instant races as scheduling choices",
